@@ -98,13 +98,19 @@ SPEC = {
     "model_targets": ["model/EsBuild.vo", "model/EsSpec.vo"],
     "module": "C07",
     "theorems": ["C07_container_partial", "C07_container_sound", "C07_mix_partial", "C07_translated",
+                 "C07_no_other_exception",
                  "C07_container_refuted", "C07_mix_refuted"],
     "correspond": correspond,
     "statement": "on supported trees and well-formed configurations: Nested/ObjectSearchFieldException iff a term "
                  "sits on a declared container or an undeclared dotted field; OrAndAndOnSameLevel iff no such "
                  "misuse and an AND-like operation has an OR-like direct operand (or vice versa); otherwise a "
-                 "JSON is produced.  The last clause (and 'a checker refusal is a real misuse') proved in full; "
-                 "the two iff clauses refuted (F8) and proved under containers_have_leaf cfg",
+                 "JSON is produced, and no exception other than these three escapes (C07_no_other_exception: "
+                 "build cfg t = RExc e -> e is XNested, XObject or XMix).  The mix clause is stated as "
+                 "is_mix_exc (build cfg t) <-> ~ container_misuse cfg t /\\ mix cfg t (the nesting checker runs "
+                 "first: a tree with both defects gets the container exception); a dot-less declared name (a "
+                 "childless top-level key of nested_fields / a dot-less object field) counts as a container: it "
+                 "is its own parent.  The last two clauses (and 'a checker refusal is a real misuse') proved in "
+                 "full; the two iff clauses refuted (F8) and proved under containers_have_leaf cfg",
     "trusted_base": [
         "Coq 8.16.1 kernel (vm_compute for table facts, witnesses and correspondence; no native_compute)",
         "no axioms (Print Assumptions: closed under the global context)",
